@@ -35,6 +35,11 @@ CONSTANTS
   StreamGuard,  \* wrap stream header/trailer/closeErr: "none" = as the code, "mutex" = repaired
   OldMutated,   \* TRUE = a write interceptor edits the stored (old) message in place, as metadatapb's merge
                 \*   interceptor and parentpb's traitUnion/traitRemove do; FALSE = old is only read
+  DefaultShared,\* what the package-level default options share between two instances of one type ("dflt" family):
+                \*   "none" = every instance gets its own (repaired), "rng" = ONE random source held by the package's
+                \*   DefaultModelOptions feeds the id generation of every instance (electricpb, as the code had it),
+                \*   "message" = one initial message held by the defaults is the stored value of every new instance
+                \*   (onoffpb, lightpb, ... as the code has it: harmless as long as nobody writes it)
   Mutant        \* "none", or a seeded deviation the model must catch: "getNoRLock" | "collectNoLock" | "hasNoLock"
 
 All  == 1..(2 * N)
@@ -70,10 +75,13 @@ M(p)    == "m" \o ToString(p)            \* the message process p builds
 CL(p)   == "cl" \o ToString(p)           \* the client object process p builds
 L(p, s) == "L" \o ToString(p) \o s       \* parts of the bus listener of process p
 
-PtrNames == { "v.value", "c.byId", "r.registry" }
+IC(i, s) == "c" \o ToString(i) \o s      \* parts of instance i of a type built from the package defaults
+Insts == {1, 2}
+PtrNames == { "v.value", "c.byId", "r.registry" } \cup { IC(i, ".byId") : i \in Insts }
 Objs == { "v.mu", "v.pubMu", "v.bus", "c.mu", "c.pubMu", "c.rngMu", "c.bus", "b.lm", "r.mu",
           "s.mu", "s.headerM", "s.headerC", "s.send", "s.closed", "s.ctx", "g.resp" }
         \cup UNION { { L(p, ".m"), L(p, ".chan"), L(p, ".ctx") } : p \in Main }
+        \cup UNION { { IC(i, ".mu"), IC(i, ".pubMu"), IC(i, ".rngMu"), IC(i, ".bus") } : i \in Insts }
 
 -----------------------------------------------------------------------------
 (* the access disciplines, as the code has them *)
@@ -115,6 +123,22 @@ CGen(p) ==
 CDel(p) ==
   << Hold(RLock("c.mu"), "c.byId"), RUnlock("c.mu"), [Nop EXCEPT !.rdh = TRUE], Lock("c.pubMu"),
      [Acc(Lock("c.mu"), {"c.byId"}, {}) EXCEPT !.set = <<"c.byId", "nil">>], Rel("c.bus"), Unlock("c.mu"), Unlock("c.pubMu") >>
+
+\* ---- location kind "package-level default shared by instances" -------------------------------------------------
+\* Two instances of one type, each with its own locks.  What they share is only what the package's default options
+\* hold by reference.  electricpb/model_opts.go (as the code had it): DefaultModelOptions contained
+\* WithRNG(rand.New(...)) evaluated once at package init, so every model's collection drew its ids from ONE generator,
+\* each under its OWN rngMu - the locks are per instance, the location is per package.
+RngOf(i) == IF DefaultShared = "rng" THEN "pkg.rng" ELSE IC(i, ".rng")
+IGen(p, i) == << RLock(IC(i, ".mu")), Acc(Lock(IC(i, ".rngMu")), {RngOf(i)}, {RngOf(i)}), Unlock(IC(i, ".rngMu")),
+                 Acc(RUnlock(IC(i, ".mu")), {IC(i, ".byId")}, {}),
+                 Acc(Nop, {}, {M(p)}), Lock(IC(i, ".pubMu")),
+                 Acc(Lock(IC(i, ".mu")), {IC(i, ".byId")}, {IC(i, ".byId")}), Unlock(IC(i, ".mu")),
+                 Pub(Rel(IC(i, ".bus")), M(p)), Unlock(IC(i, ".pubMu")) >>
+\* reading / writing the stored value of instance i: initially the message the defaults hold
+IGet(p, i) == << RdP(RLock(IC(i, ".mu")), {IC(i, ".byId")}), RUnlock(IC(i, ".mu")) >>
+ISet(p, i) == WriteVia(p, IC(i, ".mu"), IC(i, ".pubMu"), IC(i, ".byId"), IC(i, ".bus"))
+InitialOf(i) == IF DefaultShared = "message" THEN "pkg.m0" ELSE "m0." \o ToString(i)
 
 \* internal/minibus/bus.go:58 Listen: build the listener, start the goroutine that stops it, append under listenerM
 ListenHead(p) == << Acc(Nop, {}, {L(p, ".ch")}), Spawn(N + p),
@@ -176,6 +200,8 @@ Steps(op, p) ==
     [] op = "BListen" -> BListen(p) [] op = "BCancel" -> BCancel(p) [] op = "BSend" -> BSend(p)
     [] op = "RAdd" -> RAdd(p) [] op = "RRemove" -> RRemove(p) [] op = "RHas" -> RHas(p) [] op = "RGet" -> RGet(p) [] op = "RMake" -> RMake(p)
     [] op = "StreamServer" -> StreamServer(p) [] op = "StreamClient" -> StreamClient(p) [] op = "StreamClientCancel" -> StreamClientCancel(p)
+    [] op = "IGen1" -> IGen(p, 1) [] op = "IGen2" -> IGen(p, 2) [] op = "IGet1" -> IGet(p, 1) [] op = "IGet2" -> IGet(p, 2)
+    [] op = "ISet1" -> ISet(p, 1) [] op = "ISet2" -> ISet(p, 2)
     [] op = "GroupMember" -> GroupMember(p) [] op = "GroupAll" -> GroupCaller(2) [] op = "GroupFast" -> GroupCaller(1)
 HelperSteps(op, p) == IF op \in {"BListen", "BCancel"} THEN ListenHelper(p) ELSE <<>>
 
@@ -183,6 +209,7 @@ Alphabet == CASE Family = "val"  -> {"VGet", "VSet", "VPull"}
               [] Family = "coll" -> {"CGet", "CSet", "CGen", "CDel", "CPull"}
               [] Family = "bus"  -> {"BListen", "BCancel", "BSend"}
               [] Family = "rtr"  -> {"RAdd", "RRemove", "RHas", "RGet", "RMake"}
+              [] Family = "dflt" -> {"IGen1", "IGen2", "IGet1", "IGet2", "ISet1", "ISet2"}
               [] OTHER -> {}
 Scenarios == CASE Family = "stream" -> { <<"StreamClient", "StreamServer">>, <<"StreamClientCancel", "StreamServer">> }
                [] Family = "group"  -> { <<"GroupAll", "GroupMember", "GroupMember">>, <<"GroupFast", "GroupMember", "GroupMember">> }
@@ -207,7 +234,8 @@ Init ==
   /\ sync = [o \in Objs |-> Zero] /\ cnt = [o \in Objs |-> 0]
   /\ lastW = [x \in {"m0"} |-> [q |-> 0, c |-> 0]]     \* functions from the locations touched so far; the stored
   /\ lastR = [x \in {"m0"} |-> Zero]                   \* message m0 was built before any process started
-  /\ ptr = [x \in PtrNames |-> "m0"]          \* what is stored before the processes start
+  /\ ptr = [x \in PtrNames |-> IF \E i \in Insts : x = IC(i, ".byId") THEN InitialOf(CHOOSE i \in Insts : x = IC(i, ".byId"))
+                                ELSE "m0"]      \* what is stored before the processes start
   /\ held = [p \in All |-> "nil"]
   /\ sent = [o \in Objs |-> {}]
   /\ registered = {} /\ snap = [p \in All |-> {}]
@@ -288,5 +316,6 @@ RngLocs == {"c.rng"}
 StreamLocs == {"s.trailer", "s.closeErr"}
 OnlyRngRaces == \A r \in races : r[1] \in RngLocs
 OnlyStreamRaces == \A r \in races : r[1] \in StreamLocs
-OnlyMessageRaces == \A r \in races : r[1] \in {"m0"} \cup { M(p) : p \in Main }
+OnlyMessageRaces == \A r \in races : r[1] \in {"m0", "pkg.m0", "m0.1", "m0.2"} \cup { M(p) : p \in Main }
+OnlyPkgRaces == \A r \in races : r[1] \in {"pkg.rng"}
 =============================================================================
